@@ -137,9 +137,9 @@ def main(tier, seed):
     _t("limits")
 
     run.set(exhaustive=bool(thorough), exact_rows_total=n_all, exact_rows_run=len(rows),
-            rule="exact tier: every grid of 3..6 of the pressures 0.1..0.9 x every pattern of volume increments in {0, 0.1, 0.2} (TLC-enumerated; "
+            rule="exact tier: every grid of 3..6 of the pressures 0.1..0.9 x every pattern of volume increments in {0, 0.1, 0.2}, first volume 0.1 / -0.15 / 0 in turn (TLC-enumerated; "
                  + ("all" if thorough else "a seeded 1/12") + f" of {n_all} rows) x 5 method/geometry configurations x {{zero, table}} thickness on the raw functions, "
-                 "psd_mesoporous on a sample with limits on/off; observation tier: grids of 10..60 points x volume shapes (smooth, plateaus, single step) x methods x pore "
+                 "psd_mesoporous on a sample with limits on/off; observation tier: grids of 10..60 points x volume shapes (smooth, plateaus, negative first volumes, single step) x methods x pore "
                  "geometries x meniscus geometries x built-in thickness models x adsorbate property sets (three of them at one common temperature, called in turn) x limits "
                  "x stored representation (K / degC / degC + relative %); Kelvin radii for three menisci and KJS; "
                  "non-trivial = total volume change > 0; distinct = distinct (entry point, configuration, grid, volumes)")
@@ -169,12 +169,13 @@ def cmp_seq(run, site, cfg, clause, obs, exp, tol, scale, detail):
 def exact_tier(run, judge, rng, rows, rk_model, tk_model, thorough):
     import numpy
     from pygaps.characterisation.psd_meso import psd_mesoporous
-    v0 = Fraction(1, 10)
+    # first volume of the branch: positive, zero, negative (an over-corrected blank: "non-decreasing", not "non-negative")
+    V0S = [Fraction(1, 10), Fraction(-3, 20), Fraction(0)]
     thorough_all = not thorough      # quick: both thickness models of a row are TLC-judged; thorough: one of the two, alternating
     queries = []
-    for g, incs in rows:
+    for ri, (g, incs) in enumerate(rows):
         for model in ("zero", "table"):
-            queries.append({"k": "exact", "g": list(g), "incs": list(incs), "v0": renc(v0), "model": model})
+            queries.append({"k": "exact", "g": list(g), "incs": list(incs), "v0": renc(V0S[ri % 3]), "model": model})
     answers = tlc.oracle("MesoOracle", queries, timeout=900, chunk=20000)
     stored_adsorbate("verif_ads_b", cross_sectional_area=Fraction(1, 5), molar_mass=Fraction(30), liquid_density=Fraction(4, 5), surface_tension=Fraction(9))
     n_iso = 0
@@ -191,7 +192,7 @@ def exact_tier(run, judge, rng, rows, rk_model, tk_model, thorough):
         for ci, (method, geom) in enumerate(CONFIGS):
             site = raw_fn(method).__name__
             cfg = {"method": method, "pore_geometry": geom, "thickness": model, "kelvin": "table", "tier": "exact"}
-            det = {"grid": g, "incs": q["incs"]}
+            det = {"grid": g, "incs": q["incs"], "v0": q["v0"]}
             try:
                 res = raw_fn(method)(V, p, geom, tm, km)
             except Exception as e:  # noqa: BLE001
@@ -224,10 +225,10 @@ def exact_tier(run, judge, rng, rows, rk_model, tk_model, thorough):
                     run.violation(dict(sig_of(cfg), site="psd_mesoporous", clause="returns", wrong="exception:" + exc_class(e)), {"grid": g, "message": str(e)[:200]})
                 continue
             run.count(("psd_mesoporous", method, geom, model, tuple(g), tuple(q["incs"])), nontrivial=total > 0)
-            det = {"grid": g, "incs": q["incs"]}
+            det = {"grid": g, "incs": q["incs"], "v0": q["v0"]}
             if model == "zero":
                 cmp_seq(run, "psd_mesoporous", cfg, "zero_exact", res["pore_volumes"], [frac(x) for x in ex["volumes"]], TOL_EXACT, total, det)
-                cmp_seq(run, "psd_mesoporous", cfg, "cumulative", res["pore_volume_cumulative"], [frac(x) for x in ex["cum"]], TOL_EXACT, float(V[-1]), det)
+                cmp_seq(run, "psd_mesoporous", cfg, "cumulative", res["pore_volume_cumulative"], [frac(x) for x in ex["cum"]], TOL_EXACT, float(numpy.abs(V).max()) + total, det)
             if tuple(res["limits"]) != (0, len(g) - 1):
                 run.violation(dict(sig_of(cfg), site="psd_mesoporous", clause="limits", wrong="limits differ from the whole branch"), dict(det, limits=[int(x) for x in res["limits"]]))
             if finite(res["pore_widths"], res["pore_volumes"], res["pore_distribution"], res["pore_volume_cumulative"]):
@@ -266,6 +267,7 @@ def volume_shapes(p, rng):
     shapes = [("smooth", 0.02 + 0.3 * p / (1.15 - p), 0)]
     inc = numpy.where(numpy.arange(n - 1) % 3 == 1, 0.0, 0.01 + 0.02 * numpy.arange(n - 1) / n)
     shapes.append(("plateaus", numpy.concatenate([[0.05], 0.05 + numpy.cumsum(inc)]), 0))
+    shapes.append(("negative start", -0.08 + 0.3 * p / (1.15 - p), 0))        # the first volumes are below zero (over-corrected blank)
     if p[0] < 0.01:
         # the grid that spans 1e-4 .. 0.999: condensation steps in its upper part only (below, widths are under a
         # nanometre and the layer is thicker than the Kelvin radius - outside what a mesopore method resolves)
@@ -349,7 +351,7 @@ def observation_tier(run, judge, rng, thorough, seed):
         shapes = volume_shapes(p, rng)
         forced = (name, gi, tname, method, geom, branch, men) in always
         shape = shapes[rng.randrange(len(shapes))] if not (thorough or forced) else None
-        for sname, V, step in ([shape] if shape else shapes[:2] + [shapes[2 + rng.randrange(len(shapes) - 2)]]):
+        for sname, V, step in ([shape] if shape else shapes[:3] + [shapes[3 + rng.randrange(len(shapes) - 3)]]):
             zero = tname == "zero thickness"
             cfg = {"method": method, "pore_geometry": geom, "thickness": tname, "kelvin": "Kelvin", "meniscus": men or "default", "branch": branch,
                    "tier": "observation", "shape": sname}
@@ -433,7 +435,7 @@ def observation_tier(run, judge, rng, thorough, seed):
     for (name, T, ad), gi, tname in itertools.product(sets, range(len(grids)), ("Harkins/Jura", "zero thickness")):
         p = grids[gi]
         t = numpy.asarray(get_thickness_model(tname)(p), dtype=float)
-        for sname, V, step in volume_shapes(p, rng)[:3]:
+        for sname, V, step in volume_shapes(p, rng)[:4]:
             cfg = {"method": "pygaps-DH", "pore_geometry": "cylinder", "thickness": tname, "kelvin": "Kelvin-KJS", "meniscus": "default", "branch": "ads",
                    "tier": "observation", "shape": sname}
             iso = point_isotherm(p, V, adsorbate=name, temperature=T, loading_basis="volume_liquid", loading_unit="cm3")
@@ -468,7 +470,7 @@ def limits_tier(run, rng, thorough, rk_model, tk_model):
     # tables are defined on tenths 0.1..0.9; the selection grids use 0.1..0.7
     for g in grids:
         p = numpy.array([k / 20 for k in g])
-        V = 0.1 + numpy.cumsum(numpy.arange(1, len(g) + 1) * 0.05)
+        V = (-0.12 if len(g) % 2 else 0.1) + numpy.cumsum(numpy.arange(1, len(g) + 1) * 0.05)      # odd sizes start below zero
         iso = point_isotherm(p, V, adsorbate="verif_ads_b", temperature=100.0, loading_basis="volume_liquid", loading_unit="cm3")
         for lo, hi in (pairs if thorough else rng.sample(pairs, 40) + [(AUTO, AUTO)]):
             lim = None if lo == AUTO else (None if lo == NONE else lo / 20, None if hi == NONE else hi / 20)
